@@ -35,6 +35,7 @@ WHAT = {
     "P6": "pending tags are consumed: a builder that hands self.tags to a model element rebinds self.tags to a fresh list (no sharing, no carry-over to the next statement)",
     "P7": "a doc-string ends only at the delimiter that opened it; the lines in between are its text minus the opening indent",
     "P8": "table cells with pipes survive render (escape_cell) -> parse (split on unescaped pipes, unescape)",
+    "P9": "tag lines are read word by word: '@word' -> tag 'word' (any characters), '#word' starts a comment, anything else is a ParserError",
     "E4": "every ParserError raised by the parser carries the current line",
     "E6": "parser terminates: no while loop; only call cycle is action_table <-> action_steps",
 }
@@ -342,6 +343,40 @@ def check_cell_roundtrip(chk, ix):
             chk.fail(Finding("P8", esc.fullname, "%r -> %r -> %r" % (cells, line, parsed),
                              "the cells %r are rendered as the row %r, which parses back as %r: the renderer's escaping and the parser's "
                              "splitting on unescaped pipes disagree" % (cells, line, parsed), file=esc.file, line=esc.lineno, stmt="def escape_cell"))
+
+
+def check_tag_line(chk, ix):
+    """P9: a tag line read word by word (Parser.parse_tags on concrete lines, constant folding): '@word' is the tag
+    'word' whatever characters it contains; a word starting with '#' ends the line; anything else is a ParserError."""
+    chk.rule("P9", WHAT["P9"])
+    pc = ix.cls("behave.parser:Parser")
+    f = pc.lookup("parse_tags")
+    cases = [("@a @b", ["a", "b"]), ("  @a\t@b  ", ["a", "b"]), ("@a # comment @c", ["a"]), ("@a #c", ["a"]), ("@issue#123 @b", ["issue#123", "b"]),
+             ("@a @b#x # trailing", ["a", "b#x"]), ("@a.b @c-d @e=f @g:3", ["a.b", "c-d", "e=f", "g:3"]), ("# only a comment", []),
+             ("@a bad", "error"), ("bad", "error"), ("@a @@b", ["a", "@b"])]
+    for line, want in cases:
+        made = []
+        stubs = {"Tag": lambda i, s_, a, k, n: (made.append(a[0]), [(s_, "val", "TAG:" + str(a[0]))])[1],
+                 "model.Tag": lambda i, s_, a, k, n: (made.append(a[0]), [(s_, "val", "TAG:" + str(a[0]))])[1]}
+        it = Interp(ix, stubs=stubs, name="Parser.parse_tags")
+        it.int_sat = 1000
+        it.list_cap = 100
+        st = State()
+        st.frames = []
+        me = st.alloc(HObj(pc, {"line": 4, "filename": "x.feature"}, label="parser"))
+        outs = it.call_function(st, f, [line], {}, None, self_val=me)
+        chk.absorb(it)
+        chk.instance("P9")
+        if len(outs) != 1:
+            raise AnalysisError("Parser.parse_tags not foldable on %r: %r" % (line, [(k, v) for _, k, v in outs][:3]))
+        _, k, v = outs[0]
+        got = "error" if (k == "raise" and v.clsname() == "ParserError") else (list(made) if k == "val" else repr(v))
+        if got == want:
+            chk.ok("P9", {"tag line": line, "tags": want}, nontrivial_key=line)
+        else:
+            chk.fail(Finding("P9", f.fullname, "%r -> %r" % (line, got), "the tag line %r is read as %r; word by word it is %r (a '#' inside a "
+                             "word belongs to the tag, only a word that starts with '#' begins a comment)" % (line, got, want),
+                             file=f.file, line=f.lineno, stmt="def parse_tags"))
 
 
 def check_tags_consumed(chk, ix, rule="P6"):
